@@ -2,6 +2,7 @@ CONSTANTS
   LONG = 3
   MAXCUTS = 2
   FULL3 = FALSE
+  ALLCFG = FALSE
 INIT Init
 NEXT Next
 INVARIANT Emit
